@@ -14,8 +14,13 @@ def main(argv):
         return 2
     pid = argv[0].upper()
     seed = int(os.environ.get("VERIF_SEED", "0"))
-    common.tie_to_repo()
-    mod = importlib.import_module(f"harness.checks.{pid.lower()}")
+    try:
+        common.tie_to_repo()
+        mod = importlib.import_module(f"harness.checks.{pid.lower()}")
+    except Exception:
+        traceback.print_exc()
+        print(f"INTERNAL-ERROR property={pid} (no such check / harness cannot start)")
+        return 2
     if argv[1] == "--replay":
         rep = common.Report(pid, "quick", seed)
         payload = json.loads(open(argv[2]).read())
